@@ -25,7 +25,7 @@ KINDS = {
 def base(run, **kw):
     sc = dict(name="", run=run, single=False, cap=8, pool="std", workers=2, batch=2, retry=0, dq=False,
               dqworkers=1, dqbatch=1, flush_ms=15, timeout_ms=25, lines=[], steps=[], mode="random", seed=run,
-              fail_pct=0, max_fails=0, readers=1, jitter=True, retention_us=0, mult10=12)
+              fail_pct=0, max_fails=0, readers=1, jitter=True, retention_us=0, mult10=12, window="")
     sc.update(kw)
     return sc
 
@@ -100,6 +100,18 @@ _LINE = re.compile(r"\[src \|-> (\d+), stream \|-> \"(\w+)\", cls \|-> \"(\w+)\"
 def parse_lines(text):
     return [dict(id=i + 1, src=int(m.group(1)), stream=m.group(2), cls=m.group(3))
             for i, m in enumerate(_LINE.finditer(text))]
+
+
+def window_scenarios(ctx, n, start_run):
+    """put || tryUnblock window on a stream whose owner sleeps behind a held run (TLC: StreamProto mutant M_UnblockOnlyIfEmpty)"""
+    out = []
+    for k in range(n):
+        run = start_run + k
+        nev = ctx.rng.randint(2, 5)
+        lines = [dict(id=i + 1, src=1, stream="a", cls=("H" if i == 0 else ctx.rng.choice(["C", "C", "P", "H"]))) for i in range(nev)]
+        out.append(base(run, name="window-unblock-%d" % run, mode="random", window="unblock", cap=8, workers=1, batch=1, timeout_ms=3,
+                        lines=lines, jitter=False, single=ctx.rng.random() < 0.5))
+    return out
 
 
 def scripted(run, name, lines, steps, consts):
